@@ -17,6 +17,7 @@ func staticCfg() genCfg {
 	c.maxVars = 5
 	c.sendAllRate = 3
 	c.origins = true
+	c.varBounds = true
 	return c
 }
 
